@@ -59,6 +59,7 @@ package stream
 //@   requires s != nil && actions != nil && actions.Request != nil && actions.Response != nil && xlen >= 0
 //@   requires typeis(node, *streamflow.FlowGraphNode) && nd(node) != nil && allocated(nd(node))
 //@   requires typeis(flow, *streamflow.Flow) && flow.(*streamflow.Flow) != nil && flow.(*streamflow.Flow).response != nil && flow.(*streamflow.Flow).flowRep != nil
+//@   requires[response-nodes] forall(k, string, in(k, flow.(*streamflow.Flow).response.nodes) ==> flow.(*streamflow.Flow).response.nodes[k] != nil && allocated(flow.(*streamflow.Flow).response.nodes[k]))
 //@   requires forall(n, *streamflow.FlowGraphNode, allocated(n) ==> forall(k, 0, len(n.edges), n.edges[k] != nil))
 //@   allocates ProcessorIO
 //@   modifies now, xn, xo, xp, xlen, xpar, drops, actions.Request.Actions, actions.Response.Actions
@@ -73,6 +74,7 @@ package stream
 //@   loop 1 invariant[own-event-out] xo[me] == procIO.Name
 //@   loop 1 invariant[own-event-parent] xp[me] == old(xpar)
 //@   loop 1 invariant[drops] drops >= old(drops) && (reqT(apiStream) && !ifacenil(procIO.ReqAction) && procIO.ReqAction.IsEarlyReturnType() ==> drops > old(drops))
+//@   loop 1 invariant[hand-over-node] shortCircuitNode == nil || (typeis(shortCircuitNode, *streamflow.FlowGraphNode) && allocated(nd(shortCircuitNode)))
 //@   loop 1 invariant[prefix-kept] forall(i, 0, me, xn[i] == old(xn)[i] && xo[i] == old(xo)[i] && xp[i] == old(xp)[i])
 //@   loop 1 invariant[on-path] forall(i, me + 1, xlen, me <= xp[i] && xp[i] < i && follows(xn[xp[i]], xo[xp[i]], xn[i]))
 //@   loop 1 invariant[followed] forall(k, 0, idx1, nd(node).edges[k].node != nil && nd(node).edges[k].condition == procIO.Name ==> me < cidx[k] && cidx[k] < xlen && xp[cidx[k]] == me && xn[cidx[k]] == nd(node).edges[k].node)
@@ -84,6 +86,7 @@ package stream
 //@   ensures[followed] err == nil && walks(apiStream, procIO) ==> forall(k, 0, len(nd(node).edges), matchE(nd(node), k, procIO.Name) ==> old(xlen) < cidx[k] && cidx[k] < xlen && xp[cidx[k]] == old(xlen) && xn[cidx[k]] == nd(node).edges[k].node)
 //@   ensures[in-order] err == nil && walks(apiStream, procIO) ==> forall(k, 0, len(nd(node).edges), forall(k2, 0, k, matchE(nd(node), k, procIO.Name) && matchE(nd(node), k2, procIO.Name) ==> cidx[k2] < cidx[k]))
 //@   ensures[early-response] err == nil && early(apiStream, procIO) ==> in(nd(node).processorKey, flow.(*streamflow.Flow).response.nodes) && sc == box(flow.(*streamflow.Flow).response.nodes[nd(node).processorKey])
+//@   ensures[hand-over-node] sc == nil || (typeis(sc, *streamflow.FlowGraphNode) && allocated(nd(sc)))
 //@   ensures[no-hand-over] err == nil && !early(apiStream, procIO) && !walks(apiStream, procIO) ==> sc == nil
 //@   ensures[short-circuit-action] err == nil && scReq(apiStream, procIO) ==> len(actions.Request.Actions) == old(len(actions.Request.Actions)) + 1 && actions.Request.Actions[old(len(actions.Request.Actions))] == procIO.ShortCircuit.ReqAction
 //@   ensures[short-circuit-action-res] err == nil && scRes(apiStream, procIO) ==> len(actions.Response.Actions) == old(len(actions.Response.Actions)) + 1 && actions.Response.Actions[old(len(actions.Response.Actions))] == procIO.ShortCircuit.RespAction
